@@ -7,7 +7,7 @@ oracle : exact-Fraction statement of the property on the real outputs (grid, mon
          p-box contains the empirical quantiles and equals the closed-form order statistics, unsupported alpha raises)
 """
 from __future__ import annotations
-import math, copy, bisect, json, collections, gc, pickle
+import math, copy, bisect, json, collections, gc, pickle, warnings, contextlib
 from fractions import Fraction as F
 import numpy as np
 from . import core
@@ -39,6 +39,8 @@ def build(c):
         return I(lo=np.array(c["lo"], dtype=float), hi=np.array(c["hi"], dtype=float))
     s = c["s"]
     cont = c.get("cont", "array")
+    if cont == "bigintlist":                 # Python ints beyond 2**53 (odd, so not representable; they round to s)
+        return [int(x) + 1 for x in s]
     if cont.startswith("dt:"):               # ndarray of an arbitrary numpy dtype (values are exactly representable in it)
         return np.array(s, dtype=float).astype(cont[3:])
     if cont == "list":
@@ -61,6 +63,43 @@ def alpha_obj(c):
 
 def _fl(a):
     return [float(x) for x in np.asarray(a, dtype=float).ravel()]
+
+
+@contextlib.contextmanager
+def grid_ctx(c):
+    """the public discretisation Params.steps / Params.p_values set to c['grid'] for the duration of the call, always restored"""
+    g = c.get("grid")
+    P = _mods()[3]
+    if not g:
+        yield
+        return
+    old = (P.steps, P.p_values)
+    try:
+        P.steps = int(g)
+        P.p_values = np.linspace(P.p_lboundary, P.p_hboundary, int(g))
+        yield
+    finally:
+        P.steps, P.p_values = old
+
+
+def pv_of(c, default_pv):
+    g = c.get("grid")
+    if not g:
+        return default_pv
+    P = _mods()[3]
+    return [float(x) for x in np.linspace(P.p_lboundary, P.p_hboundary, int(g))]
+
+
+@contextlib.contextmanager
+def fp_mode(strict):
+    """default harness mode: numpy warnings silenced; strict: every floating-point flag and every warning is an error"""
+    if strict:
+        with np.errstate(all="raise"), warnings.catch_warnings():
+            warnings.simplefilter("error")
+            yield
+    else:
+        with np.errstate(all="ignore"):
+            yield
 
 
 def _snap(obj):
@@ -89,12 +128,12 @@ def _ks(data, a, c, **kw):
     return KS_bounds(data, a, display=False, **kw)
 
 
-def run_impl(c, keep=False, data=None):
+def run_impl(c, keep=False, data=None, strict=False):
     KS_bounds, d_alpha, I, Params = _mods()
     n = len(c["lo"]) if c["kind"] == "interval" else len(c["s"])
     a = alpha_obj(c)
     out = {"n": n}
-    with np.errstate(all="ignore"):
+    with fp_mode(strict), grid_ctx(c):
         try:
             out["D"] = ("ok", float(d_alpha(n, a)))
         except BaseException as e:  # noqa
@@ -258,7 +297,7 @@ def selections(rng, lo, hi, k):
     return sels
 
 
-DTYPES = ["uint8", "uint16", "uint32", "uint64", "int8", "int16", "int32", "float32", "float16", "bool"]
+DTYPES = ["uint8", "uint16", "uint32", "uint64", "int8", "int16", "int32", "float32", "float16", "longdouble", "bool"]
 
 
 def _dtype_vals(rng, dt, n):
@@ -267,7 +306,7 @@ def _dtype_vals(rng, dt, n):
         v = [float(rng.random() < 0.5) for _ in range(n)]
         v[0], v[-1] = 1.0, 0.0
         return v
-    if dt.startswith("float"):
+    if dt.startswith("float") or dt == "longdouble":
         sc = 10 ** rng.uniform(-2, 3)
         return [float(x) for x in np.array([rng.gauss(0, 1) * sc for _ in range(n)]).astype(dt)]
     info = np.iinfo(dt)
@@ -281,7 +320,7 @@ def _dtype_vals(rng, dt, n):
 def _dtype_widen(rng, dt, vals):
     if dt == "bool":
         return [max(v, float(rng.random() < 0.5)) for v in vals]
-    if dt.startswith("float"):
+    if dt.startswith("float") or dt == "longdouble":
         w = (max(vals) - min(vals)) or 1.0
         return [float(x) for x in np.array([v + rng.random() * w * 0.3 for v in vals]).astype(dt)]
     hi = min(int(np.iinfo(dt).max), 2 ** 53)
@@ -315,7 +354,7 @@ def gen_cases(ctx):
         cases.append({"stream": "random-precise", "kind": "precise", "s": _scale_vals(rng, n, st), "style": st,
                       "alpha": rng.choice(SUPPORTED), "alpha_np": rng.random() < 0.2,
                       "cont": rng.choice(["array", "array", "list", "col", "intarray", "int32", "intlist"]),
-                      "display": n <= 150 and rng.random() < pdisp, "un": i % 10 == 0})
+                      "display": rng.random() < (pdisp if n <= 150 else pdisp / 3), "un": i % 10 == 0})
     # 3. random interval samples with selections
     for i in range(ctx.scale(110, 5000)):
         n = _size(rng, 500 if i % 7 == 0 else 120)
@@ -325,7 +364,7 @@ def gen_cases(ctx):
         lo = [m - w for m, w in zip(mid, wl)]
         hi = [m + w for m, w in zip(mid, wr)]
         cases.append({"stream": "random-interval", "kind": "interval", "lo": lo, "hi": hi, "style": st,
-                      "alpha": rng.choice(SUPPORTED), "nsel": 3, "display": n <= 150 and rng.random() < pdisp})
+                      "alpha": rng.choice(SUPPORTED), "nsel": 3, "display": rng.random() < (pdisp if n <= 150 else pdisp / 3)})
     # 3b. thin-but-wide interval data: widths comparable to the spread, yet below numpy's default closeness
     #     tolerances (atol 1e-8, rtol 1e-5): tiny units, or a large location with small gaps
     for i in range(ctx.scale(36, 1200)):
@@ -354,10 +393,26 @@ def gen_cases(ctx):
                 mid = _scale_vals(rng, n, "normal")
                 wl, wr = _widths(rng, mid, "normal")
                 cases.append({"stream": "sizes", "kind": "interval", "lo": [m - w for m, w in zip(mid, wl)],
-                              "hi": [m + w for m, w in zip(mid, wr)], "alpha": a, "nsel": 1, "un": True, "style": "steps"})
+                              "hi": [m + w for m, w in zip(mid, wr)], "alpha": a, "nsel": 1, "un": True, "style": "steps",
+                              "display": n % 2 == 0})
             else:
                 cases.append({"stream": "sizes", "kind": "precise", "s": _scale_vals(rng, n, st), "alpha": a,
-                              "cont": "array" if k else "list", "un": True, "style": "steps"})
+                              "cont": "array" if k else "list", "un": True, "style": "steps", "display": (n + k) % 2 == 1})
+    # 3e. the public discretisation changed (Params.steps / Params.p_values), used, restored: sizes around the changed step
+    #     count, with and without the default display; the p-box must have the configured number of levels and satisfy the
+    #     oracle at that grid
+    for g in (25, 100, 300):
+        for n in sorted(set([2, 7, g - 3, g - 2, g - 1, g, g + 1, 2 * g - 2 if g < 200 else g + 40])):
+            for k, kind in enumerate(["precise", "interval"]):
+                a = SUPPORTED[(n + k + g) % 3]
+                base = {"stream": "grid-changed", "grid": g, "alpha": a, "display": (n + k) % 2 == 0, "un": n % 3 == 0, "style": f"grid{g}"}
+                if kind == "precise":
+                    cases.append({**base, "kind": "precise", "s": _scale_vals(rng, n, rng.choice(["normal", "ints"])), "cont": "array"})
+                else:
+                    mid = _scale_vals(rng, n, "normal")
+                    wl, wr = _widths(rng, mid, "normal")
+                    cases.append({**base, "kind": "interval", "lo": [m - w for m, w in zip(mid, wl)],
+                                  "hi": [m + w for m, w in zip(mid, wr)], "nsel": 1})
     # 3c. every numpy dtype as sample container (values near the ends of the dtype's range, so that differences wrap
     #     around in the dtype), unsorted / sorted / reversed; interval data with the same dtypes
     for di, dt in enumerate(DTYPES):
@@ -378,6 +433,10 @@ def gen_cases(ctx):
             else:
                 cases.append({"stream": "dtypes", "kind": "precise", "s": vals, "cont": "dt:" + dt, "alpha": a,
                               "style": dt + ":" + form, "display": (di + n) % 5 == 0})
+    for a in SUPPORTED:
+        n = rng.choice([3, 6, 12])
+        cases.append({"stream": "dtypes", "kind": "precise", "s": [float(2 ** 60 + 256 * rng.randint(0, 5)) for _ in range(n)],
+                      "cont": "bigintlist", "alpha": a, "style": "int>2**53"})
     # 4. unsupported levels (always contains the known-finding witness alpha=0.2)
     for j, a in enumerate(UNSUPPORTED):
         n = [5, 2, 17, 100][j % 4]
@@ -671,6 +730,15 @@ def verify_ring(ctx, ring, when):
             if json.dumps(again[part]) != json.dumps(canon[part]):      # nan-safe, exact on floats
                 bad.append(("repeat-call-differs", f"calling again ({when}) gives a different {part}"))
                 break
+        st_before = (np.geterr(), list(warnings.filters), _mods()[3].steps)
+        r3 = run_impl(c, strict=True)
+        for part in ("D", "band", "pbox"):
+            if r3[part][0] == "ok" and json.dumps(r3[part]) != json.dumps(canon[part]):
+                bad.append(("strict-fp-mode-differs", f"under np.errstate(all='raise') + warnings as errors the {part} is DIFFERENT (raising would be fine)"))
+                break
+        if (np.geterr(), list(warnings.filters), _mods()[3].steps) != st_before or not r3.get("input_unchanged", True):
+            bad.append(("ambient-state-changed", "numpy error state / warning filters / Params / operand changed by the call"))
+        ctx.bump("strict-fp:" + ("same" if r3["band"][0] == "ok" else "raised"))
         for how, mk in (("copy.copy", copy.copy), ("copy.deepcopy", copy.deepcopy), ("pickle", lambda o: pickle.loads(pickle.dumps(o)))):
             try:
                 dup = mk(data)
@@ -735,7 +803,10 @@ def run(ctx: core.Check, cases=None):
                 "each with lo/hi/mid + 3 random selections (uniform, endpoint mix, piled ties); 21 fixed + random unsupported levels "
                 "(neighbours of the table keys, confidence-level confusions, 0, 1, negative, nan, inf); empty sample; synthetic bundles "
                 "with about a third of the calls made as KS_bounds(s, alpha[, output_type='pbox']) with display LEFT AT ITS DEFAULT (Agg backend); "
-                "sizes n with n+2, n+1, n around the p-box step count (196..202, 398..400, 1) for precise and interval data with output_type 'bounds', 'pbox' and 'un', "
+                "the same calls under np.errstate(all='raise') + warnings-as-errors (same value or raise, ambient state unchanged); Params.steps / p_values "
+                "changed to 25, 100, 300 with sizes around the changed step count and restored; the default display also for n >= 200; "
+                "returned arrays must not share memory with the caller's float64 buffers, which are overwritten in place afterwards; longdouble arrays, "
+                "Python ints beyond 2**53; sizes n with n+2, n+1, n around the p-box step count (196..202, 398..400, 1) for precise and interval data with output_type 'bounds', 'pbox' and 'un', "
                 "the p-box judged against the closed-form order statistics of the ecdf -+ D band at its own levels; power-of-two and 1e-170 / 1e150 scalings; "
                 "operands copied / deep-copied / pickled before use; every numpy dtype as container (uint8..uint64, int8/16/32 with values at both ends of the range, float32, float16, bool; unsorted, sorted, reversed; "
                 "also as Interval endpoints); alpha as float32/float16/longdouble/0-d,1-d array/str/Fraction/Decimal (must raise or equal the float's answer); "
@@ -779,7 +850,7 @@ def run(ctx: core.Check, cases=None):
             if nfull % 250 == 0:
                 verify_ring(ctx, list(ring), "after unrelated calls")
         impls.append(impl)
-        rs = requests_for(c, impl, pv)
+        rs = requests_for(c, impl, pv_of(c, pv))
         spans.append((len(reqs), len(rs), [t for t, _ in rs]))
         reqs += [l for _, l in rs]
     gc.collect()
@@ -788,11 +859,13 @@ def run(ctx: core.Check, cases=None):
     if ctx_full_run(cases):
         aliasing_stream(ctx)
         alpha_forms_stream(ctx)
+        caller_buffers_stream(ctx)
     replies = core.model_batch("C17", reqs)
     d_alpha = _mods()[1]
     for c, impl, (st, k, tags) in zip(cases, impls, spans):
         rep = dict(zip(tags, replies[st:st + k]))
         stream = c["stream"]
+        pvc = pv_of(c, pv)
         kind = c["kind"]
         # ------------------------------------------------------------- synthetic bundles: tie only (+ monotone result)
         if kind == "bundles":
@@ -877,8 +950,8 @@ def run(ctx: core.Check, cases=None):
                             break
                         for j, (x, y) in enumerate(zip(ip[side], mp[side])):
                             if F(x) != y:
-                                i = bisect.bisect_left(probs, pv[j])
-                                near = any(0 <= k < len(probs) and abs(probs[k] - pv[j]) <= 2 * tol_n(n) for k in (i - 1, i))
+                                i = bisect.bisect_left(probs, pvc[j])
+                                near = any(0 <= k < len(probs) and abs(probs[k] - pvc[j]) <= 2 * tol_n(n) for k in (i - 1, i))
                                 if not near:
                                     good = False
                                     break
@@ -917,14 +990,14 @@ def run(ctx: core.Check, cases=None):
         if kind == "interval" and c.get("nsel", 0) and okB:
             sels = selections(rng, c["lo"], c["hi"], c["nsel"])
             members += sels[2:]
-        okP = oracle_pbox(ctx, c, D, impl["pbox"][1:], lo_s, hi_s, pv, members) if okD else True
+        okP = oracle_pbox(ctx, c, D, impl["pbox"][1:], lo_s, hi_s, pvc, members) if okD else True
         if "un" in impl:
             ctx.bump("output_type-un")
             if impl["un"][0] != "ok":
                 ctx.fail(feat(c, "KS_bounds(un)", "supported-level-raises", n=n), cj(c), f"output_type='un' raised {impl['un'][1]}")
             else:
                 if okD:
-                    oracle_pbox(ctx, {**c}, D, impl["un"][1:], lo_s, hi_s, pv, members[:2])
+                    oracle_pbox(ctx, {**c}, D, impl["un"][1:], lo_s, hi_s, pvc, members[:2])
                 if impl["un"] != impl["pbox"]:
                     ctx.fail(feat(c, "KS_bounds(un)", "un-differs-from-pbox", n=n), cj(c),
                              "the p-box inside the UncertainNumber differs from output_type='pbox'")
@@ -933,7 +1006,7 @@ def run(ctx: core.Check, cases=None):
             uq, up, lq, lp = impl["band"][1:]
             L, R = impl["pbox"][1:]
             for nm, x in sels:
-                cx = {"kind": "precise", "s": x, "alpha": a, "cont": "array", "stream": stream, "display": False}
+                cx = {"kind": "precise", "s": x, "alpha": a, "cont": "array", "stream": stream, "display": False, "grid": c.get("grid")}
                 ix = run_impl(cx)
                 ctx.bump("selection:" + nm)
                 if ix["band"][0] != "ok" or ix["pbox"][0] != "ok":
@@ -1003,6 +1076,48 @@ def alpha_forms_stream(ctx):
                              {**c, "alpha_repr": repr(obj), "data": _fl(data.lo if c["kind"] == "interval" else data)[:40]},
                              f"alpha={obj!r} ({nm}) was answered but " + ("differs from the answer for the float" if same_level else
                                                                             "is not one of the tabulated doubles"))
+
+
+def caller_buffers_stream(ctx):
+    """(Q) float64 operands of exactly steps / steps-2 / other sizes: no returned array may share memory with the caller's
+    buffers; after the call the caller overwrites its buffers in place and the earlier results must not move"""
+    KS_bounds, _, I, P = _mods()
+    rng = ctx.rng
+    steps = int(P.steps)
+    for n in (steps, steps - 2, steps + 1, 5, 2):
+        for kind in ("precise", "interval"):
+            a = rng.choice(SUPPORTED)
+            base = np.array(_scale_vals(rng, n, rng.choice(["normal", "ints"])), dtype=np.float64)
+            if kind == "precise":
+                bufs = [base]
+                data = base
+            else:
+                bufs = [base, base + np.abs(np.array(_scale_vals(rng, n, "normal")))]
+                data = I(lo=bufs[0], hi=bufs[1])
+                bufs += [data.lo, data.hi]
+            c = {"stream": "caller-buffers", "kind": kind, "alpha": a, "n": n}
+            ctx.count(("cb", n, kind), True, "caller-buffers")
+            with np.errstate(all="ignore"):
+                try:
+                    u, l = KS_bounds(data, a, display=False)
+                    p = KS_bounds(data, a, display=False, output_type="pbox")
+                except BaseException as e:  # noqa
+                    ctx.fail({"call": "KS_bounds", "kind": kind, "alpha_supported": True, "symptom": "supported-level-raises",
+                              "stream": "caller-buffers", "n": n}, c, f"raised {type(e).__name__}: {e}")
+                    continue
+            outs = [u.quantiles, u.probabilities, l.quantiles, l.probabilities, p.left, p.right]
+            shared = [i for i, o in enumerate(outs) for b in bufs if isinstance(o, np.ndarray) and np.shares_memory(o, b)]
+            before = (_canon_band(u, l), _fl(p.left), _fl(p.right))
+            for b in bufs:
+                if b.flags.writeable:
+                    b += 5.0
+                    b[:] = b[::-1].copy()
+            after = (_canon_band(u, l), _fl(p.left), _fl(p.right))
+            if shared or before != after:
+                ctx.fail({"call": "KS_bounds", "kind": kind, "alpha_supported": True, "symptom": "result-aliases-input",
+                          "stream": "caller-buffers", "n": n}, {**c, "shared_outputs": shared},
+                         "a returned array shares memory with the caller's sample" if shared else
+                         "overwriting the caller's sample in place changed the bounds returned earlier")
 
 
 def ctx_full_run(cases):
